@@ -19,16 +19,17 @@ def depth(m):
 def jobs(tier): return msg_jobs(tier)
 
 
-def msg_jobs(tier, entries=('harness_msg_flatten', 'harness_msg_parse', 'harness_msg_parse_ref', 'harness_msg_build')):
+def msg_jobs(tier, entries=('harness_msg_flatten', 'harness_msg_flatten_pre', 'harness_msg_parse', 'harness_msg_parse_ref', 'harness_msg_build')):
     J = []
     for sname, m in wire.std_shapes(tier).items():
         gen = wire.gen_c(m, concrete_strings=True)
         d = depth(m) + 1
         for entry in entries:
-            if sname == 'raw00' and entry in ('harness_msg_flatten', 'harness_msg_build'): continue      # Message::AddData refuses zero-length items by design (B_BAD_ARGUMENT); the reader side is checked
+            if sname == 'raw00' and entry in ('harness_msg_flatten', 'harness_msg_flatten_pre', 'harness_msg_build'): continue      # Message::AddData refuses zero-length items by design (B_BAD_ARGUMENT); the reader side is checked
             # the combined round trip incl. Message::operator== does not finish in 300 s (measured, every shape); it is attempted in the thorough tier only.
             # The round trip follows from flatten (API -> reference bytes) + parse_ref (reference bytes -> values) + parse (re-serialisation identical).
             if tier == 'quick' and entry == 'harness_msg_build': continue
+            if entry == 'harness_msg_flatten_pre' and not any(t not in ('string', 'message') and not (isinstance(t, tuple) or t == 'raw') and (n if isinstance(n, int) else len(n)) >= 2 for (_, t, n) in m.fields): continue   # only shapes with a fixed-size field of >= 2 items
             J.append(Job('%s %s' % (entry[8:], sname), 'B', 'harness/cpp/msg_wire.cpp', entry, gen_c=gen, unwind=24, loop_rules={entry: 170},
                          unwindset={'_ZL5BuildRN6muscle7MessageEjPKh': d, '_ZL11CheckValuesRKN6muscle7MessageEjPKh': d}, family='msg/' + entry[8:], timeout=(300 if tier == 'quick' else 1200), mem_gb=3, **COMMON))
     return J
